@@ -1,6 +1,6 @@
 (* C07 — assembling: the iterative lift refines the recursive fold; lift_table for `lift`
    (fold + normalized); script direction from Theorem A; descriptor wrappers and taproot. *)
-From Verif Require Import Exec Ser Ast Types TypeCheck SatSpec LiftModel TheoremA LiftProofs LiftNormProofs.
+From Verif Require Import Exec Ser Ast Types TypeCheck SatSpec Sat LiftModel TheoremA SatProofs CompleteProofs LiftProofs LiftNormProofs.
 From Coq Require Import Lia Permutation.
 
 (* ---------- the stack machine over the rtl post-order equals the recursive fold ---------- *)
@@ -157,21 +157,81 @@ Section LiftTable.
   Qed.
 
   (* ---------- the policy invents no spending path (Theorem A) ---------- *)
+  (* a fragment that lifts contains no raw_pk_h: Theorem A's only remaining exclusion *)
+  Lemma lift_raw_no_raw : forall m p, lift_raw m = Some p -> no_multi m.
+  Proof.
+    induction m using ms_ind'; intros p Hl; cbn [lift_raw no_multi] in *; try exact I; try discriminate Hl;
+      try (eapply IHm; eassumption);
+      try (apply obind_some in Hl; destruct Hl as [a [Ha Hl]]; apply obind_some in Hl; destruct Hl as [b [Hb Hl]]).
+    - split; eauto.
+    - split; eauto.
+    - apply obind_some in Hl. destruct Hl as [c [Hc Hl]]. repeat split; eauto.
+    - split; eauto.
+    - split; eauto.
+    - split; eauto.
+    - split; eauto.
+    - fold (lifts xs) in Hl. apply obind_some in Hl. destruct Hl as [ps [Hps _]]. apply lifts_ok in Hps.
+      induction Hps as [|x q r ps' Hxq Hr IH]; [exact I|]. inversion H; subst. split; [eauto | apply IH; assumption].
+  Qed.
+  Lemma lift_no_raw rl m p : lift rl m = Some p -> no_multi m.
+  Proof.
+    intros Hl. unfold lift, lift_full in Hl. destruct (negb rl); [discriminate|].
+    destruct (has_mixed_timelocks m); [discriminate|].
+    destruct (lift_raw m) as [q|] eqn:Eq; [|discriminate]. exact (lift_raw_no_raw m q Eq).
+  Qed.
+
   Theorem lift_script_direction (e : env) (A : assets) :
-    (forall z, (0 <= z < 2147483648)%Z -> num_operand 4 (num_encode z) = Some z) /\
-    (forall z, (0 <= z < 2147483648)%Z -> num_operand 5 (num_encode z) = Some z) /\
-    (forall z, (0 < z < 2147483648)%Z -> truthy (num_encode z) = true) /\
-    (forall v z, num_operand 4 v = Some z -> truthy v = negb (z =? 0)%Z) ->
-    assets_ok e ke A ->
-    forall rl m t p, type_of m = ROk t -> c_base (t_corr t) = BB -> wf e ke m -> no_multi m ->
+    assets_ok e ke A -> (forall kbs, e_sigok e kbs [] = false) ->
+    forall rl m t p, type_of m = ROk t -> c_base (t_corr t) = BB -> wf e ke m ->
     lift rl m = Some p -> leval A p = true ->
     exists w, In w (all_sat ke A m) /\ accepts e (enc ke m) w = true.
   Proof.
-    intros Hnum HA rl m t p Ht Hb Hwf Hnm Hl Hev.
+    intros HA Hse rl m t p Ht Hb Hwf Hl Hev.
     rewrite (lift_table A rl m t p Ht (wf_thresh_ok e ke m Hwf) Hl) in Hev.
     destruct (all_sat ke A m) as [|w r] eqn:Es; [discriminate|].
     exists w. split; [left; reflexivity|].
-    apply (witness_script_accepts e ke A Hnum HA m t Ht Hb Hwf Hnm). rewrite Es. left. reflexivity.
+    apply (witness_script_accepts e ke A HA Hse m t Ht Hb Hwf (lift_no_raw rl m p Hl)). rewrite Es. left. reflexivity.
+  Qed.
+
+  (* ---------- policy and the MODEL of the library's satisfier (Ms/Sat.v) ---------- *)
+  Lemma thresh_ok_kwf : forall m, ms_thresh_ok m -> kwf m.
+  Proof.
+    induction m using ms_ind'; intros Hok; cbn [ms_thresh_ok kwf] in *; try exact I; try tauto.
+    apply thresh_ok_thresh in Hok. destruct Hok as [Hb Hc]. split; [lia|].
+    clear Hb. induction H as [|x r Hx Hr IH]; [exact I|]. inversion Hc; subst. split; [auto | exact (IH H2)].
+  Qed.
+
+  (* the satisfier model returns a satisfaction only if the lifted policy is true (hides no
+     path the satisfier can take), both modes *)
+  Theorem lift_satisfier_implies_policy (A : assets) (se : senv) (f : fill) :
+    linked ke A se f ->
+    forall (mall rhs rl : bool) m t p bs, type_of m = ROk t -> ms_thresh_ok m -> lift rl m = Some p ->
+    satisfy ke se f mall rhs m = Some bs -> leval A p = true.
+  Proof.
+    intros HL mall rhs rl m t p bs Ht Hok Hl Hsat.
+    rewrite (lift_table A rl m t p Ht Hok Hl).
+    unfold satisfy in Hsat. destruct (s_stack (snd (sat_dissat ke se mall rhs m))) as [l| |] eqn:Es; try discriminate.
+    assert (Hks : forall ks, length (ksort ke ks) = length ks) by (intros ks; apply Permutation_length, Hsort).
+    destruct (sat_in_table ke A se f HL Hks mall rhs m (thresh_ok_kwf m Hok)) as [_ Hs].
+    pose proof (Hs l bs Es Hsat) as Hin. destruct (all_sat ke A m); [destruct Hin | reflexivity].
+  Qed.
+
+  (* conversely, a true policy makes the malleable satisfier model produce a witness template
+     (thresholds with k = n only: CompleteProofs.mall_complete) *)
+  Theorem lift_policy_implies_satisfier (A : assets) (se : senv) (f : fill) :
+    linked ke A se f ->
+    (forall t1 t2, se_after se t1 = true -> se_after se t2 = true ->
+                   Bool.eqb (N.ltb t1 500000000) (N.ltb t2 500000000) = true) ->
+    (forall t1 t2, se_older se t1 = true -> se_older se t2 = true ->
+                   Bool.eqb (rel_is_time t1) (rel_is_time t2) = true) ->
+    forall (rhs rl : bool) m t p, type_of m = ROk t -> ms_thresh_ok m -> no_partial_thresh m ->
+    lift rl m = Some p -> leval A p = true ->
+    is_stack (s_stack (snd (sat_dissat ke se true rhs m))) = true.
+  Proof.
+    intros HL Ha Hr rhs rl m t p Ht Hok Hnp Hl Hev.
+    rewrite (lift_table A rl m t p Ht Hok Hl) in Hev.
+    pose proof (mall_complete ke A se f HL Ha Hr rhs m Hnp) as G. unfold goal in G.
+    destruct G as [_ [_ [_ G]]]. apply G. destruct (all_sat ke A m); discriminate.
   Qed.
 
   (* ---------- descriptors ---------- *)
@@ -248,7 +308,7 @@ End LiftTable.
 (* ---------- non-vacuity of the script-direction hypotheses (all but the arithmetic facts about
    script numbers, which are universally quantified statements) ---------- *)
 Definition ex_e : env :=
-  mkEnv SvWitnessV0 0 5 2 (fun _ _ => true) (fun _ => true) (fun b => b) (fun b => b) (fun b => b) (fun _ => [7%N]).
+  mkEnv SvWitnessV0 0 5 2 (fun _ s => match s with [] => false | _ => true end) (fun _ => true) (fun b => b) (fun b => b) (fun b => b) (fun _ => [7%N]).
 Definition ex_ke : keyenv := mkKeyEnv (fun _ => [2%N]) (fun _ => [7%N]) (fun ks => ks).
 Definition ex_A : assets :=
   mkAssets (fun k => if N.eqb k 0 then Some [1%N] else None) (fun _ => None) (fun _ => None) (fun _ => None)
@@ -256,11 +316,11 @@ Definition ex_A : assets :=
 Definition ex_m : ms := MAndV (MVerify (MCheck (MPkK 0%N))) (MOlder 5%N).
 
 Lemma lift_nonvacuous :
-  assets_ok ex_e ex_ke ex_A /\ (forall ks, Permutation (ksort ex_ke ks) ks) /\
-  exists t p, type_of ex_m = ROk t /\ c_base (t_corr t) = BB /\ wf ex_e ex_ke ex_m /\ no_multi ex_m /\
+  assets_ok ex_e ex_ke ex_A /\ (forall kbs, e_sigok ex_e kbs [] = false) /\ (forall ks, Permutation (ksort ex_ke ks) ks) /\
+  exists t p, type_of ex_m = ROk t /\ c_base (t_corr t) = BB /\ wf ex_e ex_ke ex_m /\
               lift true ex_m = Some p /\ leval ex_A p = true.
 Proof.
-  split; [|split].
+  split; [|split; [intros kbs; reflexivity|split]].
   - constructor; try (intros; discriminate); try (intros; reflexivity).
     + intros k s H. cbn in H. destruct (N.eqb k 0); inversion H; subst. split; [reflexivity | cbn; lia].
     + intros k. cbn. lia.
